@@ -6,27 +6,25 @@ EVB_TRUST = ['pgsem (harness/go/pgsem): executable stand-in for PostgreSQL execu
 
 PROPS['C31'] = dict(
     target='Props/C31',
-    theorems=['C31_refuted_first_write', 'C31_refuted_first_write_commit_failure', 'C31_refuted_replay', 'C31_partial', 'C31_repaired', 'C31_after_commit', 'C31_scenarios'],
+    theorems=['C31_refuted_replay', 'C31_partial', 'C31_partial_from', 'C31_after_commit', 'C31_scenarios'],
     ties=[dict(name='TIE-F events', vh='events', model='events', n=dict(quick=120, thorough=6000), kinds=['C31'])],
     rule='grid: write kind (create, revert, set/delete metadata on transaction/account) x context (single on an in-use ledger, first write on an initializing ledger, atomic bulk, '
          'non-atomic bulk, both with and without continueOnFailure, both bulks on an initializing ledger; the write is the middle element of [ok, w, ok]) x outcome (ok, business failure, '
          'dry run, idempotent replay, a driver error injected at EVERY statement index of the operation, COMMIT failure at every COMMIT of the operation) + random histories of 1..6 steps '
          '(single writes / bulks of 1..4 elements, replays under idempotency keys, 10% dry runs, random statement/COMMIT faults, initializing or in-use ledger); '
          'n = number of random histories; non-trivial = trace with at least one listener call',
-    explanation='PARTIAL. The full statement is REFUTED by the faithful model (Ledger/Events.v) and by the real stack: (S-31a, C31_refuted_first_write[_commit_failure]) on the first write of an '
-                'initializing ledger handleState runs BeginTX -> LockLedger -> write -> Commit and ControllerWithEvents.LockLedger returns an object with hasTx=false, so the listener is called '
-                'inside the still-open transaction, and stays called when that COMMIT fails; (S-31b, C31_refuted_replay) an idempotent replay re-publishes the event of the stored log. '
-                'PROVED (C31_partial, no bound on histories or bulk sizes): on an in-use ledger, without replays, every history of single writes (any outcome, dry or not), atomic / non-atomic bulks '
-                'and COMMIT faults yields a trace in which each listener call follows the successful COMMIT of the top-level transaction that appended its log (C31_after_commit gives the declarative '
-                'reading), nothing is published for failed, dry-run, rolled-back or commit-failed writes, and every committed write is published exactly once. C31_repaired: the same for initializing '
-                'ledgers once LockLedger propagates hasTx. Tie: the real stack on pgsem with a recording listener; the trace of driver-level BEGIN/COMMIT/ROLLBACK, InsertLog executions and '
-                'listener calls must equal the trace of the extracted model on the same abstract operations (outcome of each write: by construction on the grid, observed on random histories and '
-                'fault runs); the C31 monitor judges the implementation trace alone.',
+    explanation='PARTIAL (one open finding). PROVED (C31_partial, no bound on histories or bulk sizes): on ANY ledger, initializing or in use, without idempotent replays, every history of single '
+                'writes (any outcome, dry or not), atomic / non-atomic bulks and COMMIT faults yields a trace in which each listener call follows the successful COMMIT of the top-level transaction '
+                'that appended its log (C31_after_commit gives the declarative reading), nothing is published for failed, dry-run, rolled-back or commit-failed writes, and every committed write is '
+                'published exactly once. REFUTED part (S-31b, C31_refuted_replay, known finding): an idempotent replay re-publishes the event of the stored log. The model follows the code after the '
+                'repair of KF-C31-first-write-event-before-commit (LockLedger propagates hasTx); the pre-fix variant of the model survives only as historical Examples (C31_pre_fix_*), not tied to the code. '
+                'Tie: the real stack on pgsem with a recording listener; the trace of driver-level BEGIN/COMMIT/ROLLBACK, InsertLog executions and listener calls must equal the trace of the extracted '
+                'model on the same abstract operations (outcome of each write: by construction on the grid, observed on random histories and fault runs); the C31 monitor judges the implementation trace alone.',
     trusted=EVB_TRUST,
     technique='Coq proof (trace judgement as a state machine; induction over histories and bulk element lists; vm_compute refutation witnesses) + fault-injection differential run of the extracted model against the real controller stack',
     level_text='Unbounded theorem about Ledger/Events.v, the store-call-level model of ControllerWithEvents (hasTx/parent/atCommit), the state tracker facade, forgeLog and Bulker.Run: '
-               'events after the outermost commit, none for failed/dry/rolled-back/commit-failed writes, exactly one per committed write -- proved for in-use ledgers without idempotent replays; '
-               'refuted (witnesses replayed on the real code, known findings) for the first write of an initializing ledger and for replays.',
+               'events after the outermost commit, none for failed/dry/rolled-back/commit-failed writes, exactly one per committed write -- proved for initializing and in-use ledgers without idempotent replays; '
+               'refuted (witness replayed on the real code, known finding) for idempotent replays.',
     level_note='The write itself is abstract (fails / appends one log / replay); write kinds are uniform in the model (the seven ControllerWithEvents methods have one shape) and distinguished only in the tie. '
                'Parallel bulks are not part of the events tie. InsertSchema is modelled (same shape) but not exercised by the tie.',
 )
@@ -34,7 +32,7 @@ PROPS['C31'] = dict(
 PROPS['C32'] = dict(
     target='Props/C32',
     theorems=['C32_one_result_per_element', 'C32_atomic_all_or_none', 'C32_sequential_continue', 'C32_sequential_stops_at_first_failure', 'C32_all_succeed',
-              'C32_success_is_standalone', 'C32_response_attribution_sequential', 'C32_parallel_is_a_permutation', 'C32_attribution_refuted_parallel', 'C32_core_atomic_all_or_none'],
+              'C32_success_is_standalone', 'C32_response_attribution_sequential', 'C32_response_attribution_parallel', 'C32_parallel_one_result_per_element', 'C32_parallel_is_a_permutation', 'C32_core_atomic_all_or_none'],
     ties=[dict(name='TIE-D bulk', vh='bulk', model='bulk', n=dict(quick=400, thorough=8000), kinds=['C32'])],
     rule='random bulks of 1..7 elements on a ledger prepared with 0..4 committed writes: CREATE_TRANSACTION (funded, insufficient funds, reference reuse r1/r2, back-dated), REVERT_TRANSACTION '
          '(existing, unknown, already reverted), ADD_METADATA / DELETE_METADATA on transactions and accounts (unknown transaction), idempotency keys reused inside the bulk; failing elements at random '
@@ -43,14 +41,14 @@ PROPS['C32'] = dict(
     explanation='PROVED for every per-element step function and every element list (Ledger/Bulk.v, model of Bulker.Run/run and writeJSONResponse): exactly one result per element; atomic => any failure '
                 'leaves the observable state untouched, no failure => all applied in order; sequential non-atomic => applied in order, nothing processed after the first failure (later results are '
                 'context.Canceled) unless continueOnFailure, in which case all are processed; every successful result equals the standalone result of the same request in the state the bulk had reached; '
-                'sequential responses attribute result i to element i. Instantiated with Core.step (C32_core_atomic_all_or_none, tables unchanged). REFUTED for parallel=true '
-                '(C32_attribution_refuted_parallel, S-32): ElementID is never set, results are collected in completion order and paired with actions by position. Tie: per-entry response '
+                'the JSON response attributes to element i the result computed for element i, for sequential bulks and for EVERY parallel schedule (C32_response_attribution_parallel: results carry '
+                'ElementID, the response is sorted by it -- the code after the repair of KF-C32-parallel-attribution). Instantiated with Core.step (C32_core_atomic_all_or_none, tables unchanged). Tie: per-entry response '
                 '(responseType, logID, transaction id, error class) and the full ledger snapshot of the real stack vs the extracted model; the C32 monitor replays the elements one by one on a second '
                 'fresh stack for the standalone results and checks all-or-none / order / one result per element / attribution on the implementation alone.',
     trusted=EVB_TRUST + HIST_TRUST,
     technique='Coq proof (induction over element lists, abstract step function, instantiation with the ledger model) + differential run through the real Bulker and JSON handler on pgsem + independent standalone replay',
     level_text='Unbounded theorems about Ledger/Bulk.v for every step function: one result per element, atomic all-or-none, ordered sequential application with stop-at-first-failure / continueOnFailure, '
-               'successful results equal standalone results, positional attribution correct for sequential bulks; parallel attribution refuted (known finding).',
+               'successful results equal standalone results, response entry i describes element i for sequential and parallel bulks.',
     level_note='Parallel execution is modelled as serialised executions in completion order (schedules with a late/early hasError test per task); the tie exercises the schedules in which all tasks start '
                'before the first completion. Statement-level interleavings of parallel elements are not modelled. Trusted: Coq kernel, extraction, pgsem, Go harness.',
 )
